@@ -42,10 +42,12 @@ def arr_tok(a):
     return ilist(a.shape), (clist(a.reshape(-1)) if np.iscomplexobj(a) else flist(a.reshape(-1)))
 
 
-def canon_nd(r):
+def canon_nd(r, cplx=False):
     if isinstance(r, str):
         return r
     r = np.asarray(r)
+    if cplx and not np.iscomplexobj(r):
+        r = r.astype(complex)     # complex input: a real result is compared as complex with zero imaginary part
     sh, d = arr_tok(r)
     return 'ok %s %s' % (sh, d)
 
@@ -135,7 +137,7 @@ def mk_cov_case(fn, x, y, axis, al, db, nm):
     line = 'C20 %s %s %d %d %d %d %s %s' % (fn, 'c' if cplx else 'r', axis, al, db, nm, sh, xd)
     if y is not None:
         line += ' ' + arr_tok(y)[1]
-    impl = canon_nd(call(lambda: cov_call(fn, x.copy(), None if y is None else y.copy(), axis, bool(al), bool(db), bool(nm))))
+    impl = canon_nd(call(lambda: cov_call(fn, x.copy(), None if y is None else y.copy(), axis, bool(al), bool(db), bool(nm))), cplx)
     N = x.shape[axis]
     mag = float(np.abs(x).max()) * float(np.abs(y if y is not None else x).max()) * N
     meta = {'op': 'cov', 'fn': fn, 'x': arr_tok(x), 'y': None if y is None else arr_tok(y), 'cplx': cplx,
@@ -144,8 +146,8 @@ def mk_cov_case(fn, x, y, axis, al, db, nm):
     return Case(line, impl, 'cov/%s/%s' % (fn, 'complex' if cplx else 'real'), cmp=cmp_nd(cplx, 1e-12 * mag), meta=meta, nontrivial=nt)
 
 
-def seq_gen(rng, n, k):
-    labels = rng.sample(range(-20, 40), k)
+def seq_gen(rng, n, k, canonical=False):
+    labels = list(range(k)) if canonical else rng.sample(range(-20, 40), k)
     return [rng.choice(labels) for _ in range(n)]
 
 
@@ -275,7 +277,11 @@ def cases(rng, tier, seed):
         rare = rng.random() < 0.12
         if rare:      # long sequences with a symbol that occurs once (p < 0.01): rare cells must count
             n = rng.randint(120, 200)
-        seqs = [seq_gen(rng, n, rng.randint(1, 6)) for _ in range(nv)]
+        canonical = rng.random() < 0.4     # labels 0..k-1 in every variable (overlapping label sets)
+        sizes = [rng.randint(1, 6) for _ in range(nv)]
+        if nv > 1 and rng.random() < 0.5:
+            sizes.sort()                    # unequal alphabets, the SMALLER one first
+        seqs = [seq_gen(rng, n, k_, canonical) for k_ in sizes]
         if rare:
             seqs[0][rng.randrange(n)] = 77
         if nv > 1 and rng.random() < 0.25:      # dependent variables
@@ -458,6 +464,10 @@ def check_case(c, rng=None):
                 card *= len(set(s))
             if got > math.log2(card) + eps:
                 return fail(c, 'above-log-card', 'H = %r > log2(%d)' % (got, card))
+            if len(seqs) == 2:
+                back = parse_flist(ent_impl(fn, [seqs[1], seqs[0]])[3:])[0]
+                if abs(back - got) > eps:
+                    return fail(c, 'asymmetric', 'H(X,Y) = %r but H(Y,X) = %r' % (got, back))
             # relabelling and joint permutation on the implementation
             lab = {}
             for s in seqs:
